@@ -52,8 +52,9 @@ NUM, TXT, INTS, NUMS = REAL, STR, List(INT), List(REAL)
 NAMEREC = Opaque("NameRecord")
 
 STATIC = {
-    "versionMajor": (NUM, 0),
-    "versionMinor": (NUM, 0),
+    # UFO3: versionMajor is an integer, versionMinor a non-negative integer
+    "versionMajor": (INT, 0),
+    "versionMinor": (INT, 0),
     "copyright": (TXT, None),
     "trademark": (TXT, None),
     "familyName": (TXT, "New Font"),
@@ -190,6 +191,35 @@ SPECIAL = {
     "postscriptUnderlinePosition": dict(ty=NUM, fn="postscriptUnderlinePositionFallback", formula=f"{g('unitsPerEm')} * -0.075", canary="result == -75"),
 }
 
+# String-building fallbacks, each against its documented formula.  They need str.format / zfill / replace in the
+# engine (notes/C16.requests.md R4, R5, R7); an attribute listed in ENABLED is treated like the SPECIAL ones above (contract on
+# the fallback function + full `getAttrWithFallback#<attr>` variant), the others stay in OUT_OF_REACH (explicit half only).
+_PF, _PS = g("openTypeNamePreferredFamilyName"), g("openTypeNamePreferredSubfamilyName")
+_VMJ, _VMN = g("versionMajor"), g("versionMinor")
+# str(minor).zfill(3): zero-filled to three characters (a sign counts and stays in front)
+_ZFILL3 = (f"ite({_VMN} >= 100 or {_VMN} <= -10, str({_VMN}), ite({_VMN} >= 10, '0' + str({_VMN}), ite({_VMN} >= 0, '00' + str({_VMN}), '-0' + str(-{_VMN}))))")
+SPECIAL_PENDING = {
+    "postscriptFullName": dict(ty=TXT, fn="postscriptFullNameFallback", formula=f"{_PF} + ' ' + {_PS}", canary="result == 'New Font Regular'"),
+    "postscriptFontName": dict(
+        ty=TXT, fn="postscriptFontNameFallback",
+        # "family-style", normalised (documented normalisation ps_norm, spaces not allowed)
+        formula=f"ps_norm({_PF} + '-' + {_PS}, False)",
+        # the property's last sentence: printable ASCII only, no space, none of []{{}}<>()/%
+        extra={"chars": "all(ps_char_ok(result[i], False) for i in range(len(result)))"},
+        canary="result == 'NewFont-Regular'",
+    ),
+    "openTypeNameVersion": dict(ty=TXT, fn="openTypeNameVersionFallback", formula=f"'Version ' + str({_VMJ}) + '.' + {_ZFILL3}", canary="result == 'Version 0.000'"),
+    "openTypeNameUniqueID": dict(
+        ty=TXT, fn="openTypeNameUniqueIDFallback",
+        # version (without the 'Version ' prefix);vendor;PostScript name
+        formula=f"{g('openTypeNameVersion')}.replace('Version ', '') + ';' + {g('openTypeOS2VendorID')} + ';' + {g('postscriptFontName')}",
+        canary="result == '0.000;NONE;NewFont-Regular'",
+    ),
+}
+ENABLED = set()
+for _a in sorted(ENABLED):
+    SPECIAL[_a] = SPECIAL_PENDING[_a]
+
 # Special fallbacks whose bodies are outside pyvc's subset (str.format / zfill / replace, os.environ + time,
 # zip over stepped slices).  For these attributes only the "explicit value wins" half is proved (variant
 # `<attr>/explicit`); the fallback half is checked against an independent formula, bounded, in the hook.
@@ -201,6 +231,8 @@ OUT_OF_REACH = {
     "postscriptFullName": TXT,
     "postscriptBlueScale": NUM,
 }
+for _a in ENABLED:
+    OUT_OF_REACH.pop(_a, None)
 
 ATTR_TYPES = {**{a: t for a, (t, _) in STATIC.items()}, **{a: d["ty"] for a, d in SPECIAL.items()}, **OUT_OF_REACH}
 
@@ -241,25 +273,164 @@ def _radians(ex, st, args, kwargs, node):
 
 
 # ---------------------------------------------------------------------------------------------------------
+# openTypeHeadCreatedFallback: SOURCE_DATE_EPOCH (reproducible builds) if set, otherwise now.  The process environment,
+# int(str), datetime.fromtimestamp / strftime and the clock are LIBRARY pieces: opaque spec functions name what they
+# return (natively: the real thing), trusted models local to the contract tie the calls to those names.
+_EPOCH = "SOURCE_DATE_EPOCH"
+
+
+@specfn(BOOL, opaque=True, k=STR)
+def environ_has(k):
+    """the process environment has the variable"""
+    import os
+
+    return k in os.environ
+
+
+@specfn(STR, opaque=True, k=STR)
+def environ_get(k):
+    """the value of an environment variable that is set"""
+    import os
+
+    return os.environ[k]
+
+
+@specfn(BOOL, opaque=True, s=STR)
+def int_literal(s):
+    """int(s) accepts the string"""
+    try:
+        int(s)
+        return True
+    except ValueError:
+        return False
+
+
+@specfn(INT, opaque=True, s=STR)
+def int_value(s):
+    """int(s) of an accepted string (natively 0 for a rejected one, so that clauses stay total)"""
+    return int(s) if int_literal(s) else 0
+
+
+@specfn(STR, opaque=True, n=INT)
+def utc_error(n):
+    """name of the exception datetime.fromtimestamp(n, timezone.utc) raises (time_t / year range), '' if none"""
+    from datetime import datetime, timezone
+
+    try:
+        datetime.fromtimestamp(n, timezone.utc)
+        return ""
+    except (ValueError, OverflowError, OSError) as e:
+        return type(e).__name__
+
+
+@specfn(STR, opaque=True, n=INT)
+def utc_date_string(n):
+    """n seconds after 1970-01-01 00:00:00 UTC as 'YYYY/MM/DD HH:MM:SS' (independent of datetime: time.gmtime)"""
+    import time
+
+    return time.strftime("%Y/%m/%d %H:%M:%S", time.gmtime(n))
+
+
+def _sf(ex, name):
+    from pyvc.api import SPECFNS
+
+    return ex.spec_decl(SPECFNS[name])
+
+
+def _environ_contains(ex, st, self, x):
+    return _sf(ex, "environ_has")(lift(x, STR))
+
+
+def _environ_getitem(ex, st, self, idx, node):
+    k = lift(idx, STR)
+    ex.safety(st, _sf(ex, "environ_has")(k), "KeyError", node)
+    return Val(STR, _sf(ex, "environ_get")(k))
+
+
+cls("Environ", fields={}, contains=_environ_contains, getitem=_environ_getitem, notes="os.environ, read-only: `in` and `[]` (assumed: a function of the variable name during the call)")
+cls("OsModule", fields={"environ": Ref("Environ")}, notes="the module object `os` as far as openTypeHeadCreatedFallback uses it")
+
+
+def _int_c16(ex, st, args, kwargs, node):
+    """int(s) of a string: ValueError iff not int_literal(s); else int_value(s).  Numbers: as usual."""
+    from pyvc import models
+
+    if len(args) == 1 and not is_const(args[0]) and ex.deopt(args[0], st, node).ty == STR:
+        s = lift(ex.deopt(args[0], st, node), STR)
+        ex.safety(st, _sf(ex, "int_literal")(s), "ValueError", node)
+        return Val(INT, _sf(ex, "int_value")(s))
+    return models.BUILTIN_MODELS["builtins.int"].model(ex, st, args, kwargs, node)
+
+
+def _dt_strftime(ex, st, self, args, kwargs, node):
+    (fmt,) = args
+    if not is_const(fmt) or fmt.py != "%Y/%m/%d %H:%M:%S":
+        raise Unsupported("datetime.strftime with a format other than the UFO3 date format", node)
+    return Val(STR, _sf(ex, "utc_date_string")(lift(ex.read_field(st, self, "timestamp"), INT)))
+
+
+cls("DateTimeUTC", fields={"timestamp": INT}, methods={"strftime": _dt_strftime}, notes="an aware datetime in UTC, as the instant it denotes (assumed)")
+
+
+def _fromtimestamp(ex, st, args, kwargs, node):
+    """datetime.fromtimestamp(n, timezone.utc): raises the exception named utc_error(n) if any; else the UTC datetime of
+    the instant n, whose strftime('%Y/%m/%d %H:%M:%S') is utc_date_string(n)"""
+    from datetime import timezone
+
+    if len(args) != 2 or kwargs or not (args[1].is_py and args[1].py is timezone.utc):
+        raise Unsupported("datetime.fromtimestamp: expected (seconds, timezone.utc)", node)
+    n = lift(args[0], INT)
+    err = _sf(ex, "utc_error")(n)
+    for e in ("ValueError", "OverflowError", "OSError"):
+        ex.safety(st, err != z3.StringVal(e), e, node)
+    st.assume(err == z3.StringVal(""))
+    o = ex.new_object(st, "DateTimeUTC")
+    ex.write_field(st, o, "timestamp", Val(INT, n), node)
+    return o
+
+
+_EPOCH_VAL = f"int_value(environ_get('{_EPOCH}'))"
+SPECIAL["openTypeHeadCreated"] = dict(
+    ty=TXT, fn="openTypeHeadCreatedFallback",
+    # SOURCE_DATE_EPOCH seconds as a UTC date string if the variable is set; otherwise the current time: some valid date string
+    clause=f"(result == utc_date_string({_EPOCH_VAL}) if environ_has('{_EPOCH}') else date_valid(result))",
+    raises={
+        "ValueError": f"environ_has('{_EPOCH}') and (not int_literal(environ_get('{_EPOCH}')) or utc_error({_EPOCH_VAL}) == 'ValueError')",
+        # (the engine treats the exceptional exits of one statement independently of each other: int()'s ValueError is not
+        # known to come first, so these two conditions do not mention int_literal)
+        "OverflowError": f"environ_has('{_EPOCH}') and utc_error({_EPOCH_VAL}) == 'OverflowError'",
+        "OSError": f"environ_has('{_EPOCH}') and utc_error({_EPOCH_VAL}) == 'OSError'",
+    },
+    canary="result == '2020/01/02 03:04:05'",
+    models={"builtins.int": _int_c16, "None.datetime.fromtimestamp": _fromtimestamp},
+    globals={"os": Val(Ref("OsModule"), z3.Const("the_os_module", Ref("OsModule").sort()))},
+)
+OUT_OF_REACH.pop("openTypeHeadCreated")
+
+# ---------------------------------------------------------------------------------------------------------
 # special fallback functions (bare keys: getAttrWithFallback's variants call them through these contracts)
+def _fallback_clause(d):
+    """the documented fallback as a clause over `result`: an equation with the formula, `is None`, or a free-form clause"""
+    if "clause" in d:
+        return d["clause"]
+    return "result is None" if d["formula"] is None else f"result == {d['formula']}"
+
+
 for _a, _d in SPECIAL.items():
-    _ens = {}
-    if _d["formula"] is None:
-        _ens["none"] = "result is None"
-    else:
-        _ens["formula"] = f"result == {_d['formula']}"
+    _ens = {("none" if _d.get("formula", 0) is None else "formula"): _fallback_clause(_d)}
     _ens.update(_d.get("extra", {}))
     contract(
         f"{MOD}:{_d['fn']}",
         props=P,
         params={"info": Ref("FontInfo")},
-        returns=(Opt(_d["ty"]) if _d["formula"] is None else _d["ty"]),
+        returns=(Opt(_d["ty"]) if _d.get("formula", 0) is None else _d["ty"]),
         requires=list(_d.get("requires", [])),
         ensures=_ens,
         raises=dict(_d.get("raises", {})),
         canaries={"pinned": _d["canary"]},
         locals=dict(_d.get("locals", {})),
-        globals=G,
+        models=dict(_d.get("models", {})),
+        globals={**G, **_d.get("globals", {})},
     )
 
 
@@ -291,7 +462,7 @@ for _a, (_t, _v) in STATIC.items():
     )
 
 for _a, _d in SPECIAL.items():
-    _fb = "result is None" if _d["formula"] is None else f"result == {_d['formula']}"
+    _fb = _fallback_clause(_d)
     _r = {}
     for _e, _c in _d.get("raises", {}).items():
         _r[_e] = f"not {_explicit(_a)} and ({_c})"
@@ -500,6 +671,7 @@ lemma(
 # every attribute, and a bare namespace that has only the listed ones) with random subsets of attributes;
 # falsy explicit values (0, 0.0, False, "", []) are drawn often
 _VALUES = {
+    INT.key: [0, 0, 1, 3, 5, 12, 50, 100, 999, 1000],
     NUM.key: [0, 0.0, 1, -1, 500, 1000, 2048, 750.5, -250.25, 12.5, 180],
     TXT.key: ["", "Regular", "Bold", " bold italic ", "Italic", "Ünï cødé", "A  B", "x"],
     BOOL.key: [False, True],
@@ -564,6 +736,37 @@ for _k, _c in list(CONTRACTS.items()):
     else:
         _focus = next(a for a, d in SPECIAL.items() if _c.target.endswith(":" + d["fn"]))
     _c.runtime = Runtime(_info_gen(_focus), lambda d: {"info": build_info(d)})
+
+
+# openTypeHeadCreated: the cases also choose the process environment (SOURCE_DATE_EPOCH unset / valid / not a number /
+# out of the year range / out of the time_t range); build() puts it in place for the call and the clauses
+_EPOCHS = [None, "1577934245", "0", "abc", "", "253402300800", "99999999999999999999999", "-5", " 12 ", "1e3", "-62135596801"]
+
+
+def _epoch_gen(focus):
+    base = _info_gen(focus)
+
+    def gen(rng, n):
+        out = base(rng, n)
+        for k, d in enumerate(out):
+            d["epoch"] = _EPOCHS[k % len(_EPOCHS)] if k < 2 * len(_EPOCHS) else rng.choice(_EPOCHS + [str(rng.randint(-10**10, 10**11))])
+        return out
+
+    return gen
+
+
+def _epoch_build(d):
+    import os
+
+    if d.get("epoch") is None:
+        os.environ.pop(_EPOCH, None)
+    else:
+        os.environ[_EPOCH] = d["epoch"]
+    return {"info": build_info(d)}
+
+
+for _k in (f"{MOD}:openTypeHeadCreatedFallback", f"{MOD}:getAttrWithFallback#openTypeHeadCreated"):
+    CONTRACTS[_k].runtime = Runtime(_epoch_gen("openTypeHeadCreated"), _epoch_build)
 
 
 # =========================================================================================================
@@ -677,14 +880,23 @@ for _tag, _attrs in SET_ATTRS_SITES.items():
 # into the table object.  Field ranges / struct packing are fontTools' (out of scope).
 from . import rtlib  # noqa: E402
 
-# types of the summary symbols these functions read (setdefault: another property's file may have typed them)
-for _a, _t in ATTR_TYPES.items():
-    if _a in STATIC and STATIC[_a][1] is None:
+# types of the summary symbols these functions read (setdefault: another property's file may have typed them); only
+# the attributes read by the functions under contract in THIS file are typed here — other properties rely on the
+# numeric default for theirs
+_READ_HERE = [
+    "openTypeOS2Type", "openTypeOS2FamilyClass", "openTypeOS2Panose", "openTypeOS2UnicodeRanges", "openTypeOS2CodePageRanges", "openTypeOS2VendorID",
+    "openTypeOS2Selection", "openTypeOS2SubscriptXSize", "openTypeOS2SubscriptYSize", "openTypeOS2SubscriptXOffset", "openTypeOS2SubscriptYOffset",
+    "openTypeOS2SuperscriptXSize", "openTypeOS2SuperscriptYSize", "openTypeOS2SuperscriptXOffset", "openTypeOS2SuperscriptYOffset",
+    "openTypeOS2StrikeoutSize", "openTypeOS2StrikeoutPosition", "postscriptIsFixedPitch", "openTypeHeadCreated", "openTypeHeadFlags",
+    "copyright", "trademark", "openTypeNameDesigner", "openTypeNameDesignerURL", "openTypeNameManufacturer", "openTypeNameManufacturerURL",
+    "openTypeNameLicense", "openTypeNameLicenseURL", "openTypeNameDescription", "openTypeNameCompatibleFullName", "openTypeNameSampleText",
+    "openTypeNameUniqueID", "openTypeNameVersion", "postscriptFontName", "postscriptFullName", "openTypeNameWWSFamilyName", "openTypeNameWWSSubfamilyName",
+]
+for _a in _READ_HERE:
+    _t = ATTR_TYPES[_a]
+    if (_a in STATIC and STATIC[_a][1] is None) or _a in ("openTypeNameWWSFamilyName", "openTypeNameWWSSubfamilyName"):
         _t = Opt(_t)  # documented fallback None: the with-fallback value is optional
-    if _a in ("openTypeNameWWSFamilyName", "openTypeNameWWSSubfamilyName"):
-        _t = Opt(_t)
-    if _t != REAL:
-        lib.INFO_ATTR_TYPES.setdefault(_a, _t)
+    lib.INFO_ATTR_TYPES.setdefault(_a, _t)
 # the UFO3 specification types versionMajor / versionMinor as integers
 lib.INFO_ATTR_TYPES.setdefault("versionMajor", INT)
 lib.INFO_ATTR_TYPES.setdefault("versionMinor", INT)
@@ -722,6 +934,10 @@ def _table_info_cases(extra_attrs=()):
 
 def _table_build(upto=()):
     def build(d):
+        import os
+
+        # a fixed clock for the creation date: the clauses read the with-fallback value AFTER the call
+        os.environ[_EPOCH] = "1577934245"
         comp = rtlib.outline_compiler(d, d["flavor"], upto=upto)
         if d.get("no_tables"):
             comp.tables = frozenset()
@@ -988,16 +1204,369 @@ contract(
 )
 
 _NAME = "self.otf['name']"
+# NOT registered yet: the 21-key loop of setupTable_name explodes while unrolling (notes/C16.requests.md R10); the name
+# records stay under observer O (bounded) until the engine joins states per unrolled iteration
+_NAME_PROPS = []
+
+
+@specfn(BOOL, s=STR)
+def non_bmp(s):
+    """the string has a character outside the Basic Multilingual Plane (such records use platform encoding 10, else 1)"""
+    return any(ord(s[i]) > 65535 for i in range(len(s)))
+
+
+_RECS = f"{_NAME}.recs"
+_R = gi("openTypeNameRecords")
+
+
+def _rk(a):
+    return f"({_R}[{a}]['nameID'], {_R}[{a}]['platformID'], {_R}[{a}]['encodingID'], {_R}[{a}]['languageID'])"
+
+
+_PSN = gi("postscriptFontName")
+_PFAM, _PSUB = gi("openTypeNamePreferredFamilyName"), gi("openTypeNamePreferredSubfamilyName")
+# nameID -> (value as a clause text, may the value be None?)
+_NAME_VALUES = {
+    0: (gi("copyright"), True),
+    1: (gi("styleMapFamilyName"), False),
+    2: (f"{_SM}.title()", False),
+    3: (gi("openTypeNameUniqueID"), False),
+    4: (f"({_PFAM} + ' ' + {_PSUB})", False),
+    5: (gi("openTypeNameVersion"), False),
+    # the PostScript name is normalised (spaces allowed here) — an explicit one too
+    6: (f"ite({_PSN} != '', ps_norm({_PSN}, True), '')", False),
+    7: (gi("trademark"), True),
+    8: (gi("openTypeNameManufacturer"), True),
+    9: (gi("openTypeNameDesigner"), True),
+    10: (gi("openTypeNameDescription"), True),
+    11: (gi("openTypeNameManufacturerURL"), True),
+    12: (gi("openTypeNameDesignerURL"), True),
+    13: (gi("openTypeNameLicense"), True),
+    14: (gi("openTypeNameLicenseURL"), True),
+    16: (_PFAM, False),
+    17: (_PSUB, False),
+    18: (gi("openTypeNameCompatibleFullName"), True),
+    19: (gi("openTypeNameSampleText"), True),
+    21: (gi("openTypeNameWWSFamilyName"), True),
+    22: (gi("openTypeNameWWSSubfamilyName"), True),
+}
+assert sorted(_NAME_VALUES) == _NAME_IDS
+# the typographic names are left out when BOTH equal the legacy (style-map) names
+_ELIDE = f"({_NAME_VALUES[1][0]} == {_NAME_VALUES[16][0]} and {_NAME_VALUES[2][0]} == {_NAME_VALUES[17][0]})"
+
+
+def _present(n):
+    v, opt = _NAME_VALUES[n]
+    t = f"({v} is not None and {v} != '')" if opt else f"({v} != '')"
+    return f"({t} and not {_ELIDE})" if n in (16, 17) else t
+
+
+def _bkey(n):
+    return f"({n}, 3, (10 if non_bmp({_NAME_VALUES[n][0]}) else 1), 1033)"
+
+
+_NAME_ENS = {}
+for _n in _NAME_IDS:
+    # a Windows / English (3, 1|10, 0x409) record per non-empty value, unless an explicit name record has the same key
+    _NAME_ENS[f"built:{_n}"] = (
+        f"implies('name' in self.tables and {_present(_n)} and not any({_rk('a')} == {_bkey(_n)} for a in range(len({_R}))), "
+        f"{_bkey(_n)} in {_RECS} and {_RECS}[{_bkey(_n)}] == {_NAME_VALUES[_n][0]})"
+    )
+# every explicit name record is there; of several with the same key the last one wins
+_NAME_ENS["records"] = (
+    f"implies('name' in self.tables, all(implies(not any({_rk('b')} == {_rk('a')} for b in range(a + 1, len({_R}))), "
+    f"{_rk('a')} in {_RECS} and {_RECS}[{_rk('a')}] == {_R}[a]['string']) for a in range(len({_R}))))"
+)
+_NAME_ENS["nothing-else"] = (
+    f"implies('name' in self.tables, all(any({_rk('a')} == k for a in range(len({_R}))) or "
+    + " or ".join(f"({_present(_n)} and k == {_bkey(_n)})" for _n in _NAME_IDS)
+    + f" for k in {_RECS}))"
+)
+_NAME_ENS["not-requested"] = "implies('name' not in self.tables, self.otf.get('name') == old(self.otf.get('name')))"
+
 contract(
     "ufo2ft.outlineCompiler:BaseOutlineCompiler.setupTable_name",
     name="c16",
-    props=P,
+    props=_NAME_PROPS,
     params={"self": Ref("OutlineCompilerN")},
-    ensures={
-        "not-requested": "implies('name' not in self.tables, self.otf.get('name') == old(self.otf.get('name')))",
+    ensures=_NAME_ENS,
+    canaries={"empty": f"'name' in self.tables and len({_RECS}) == 0"},
+    ghost_vars={"built": (Dict(NKEY, STR), "{}"), "src": (Dict(NKEY, INT), "{}")},
+    ghost={
+        # after the first loop: the records built from the info attributes
+        "for nameId in sorted(nameVals.keys()):": ["built = name.recs"],
+        # second loop: which explicit record (position) set a key last
+        "nameVal = nameRecord['string']": ["src = {**src, (nameId, platformId, platEncId, langId): i}"],
     },
-    canaries={"empty": f"'name' in self.tables and len({_NAME}.recs) == 0"},
+    loops={
+        'for nameRecord in getAttrWithFallback(font.info, "openTypeNameRecords")': Loop(
+            index="i",
+            invariants={
+                "is-table": "self.otf.get('name') is not None and name == self.otf['name']",
+                "records": f"all(implies(not any({_rk('b')} == {_rk('a')} for b in range(a + 1, i)), {_rk('a')} in name.recs and name.recs[{_rk('a')}] == {_R}[a]['string']) for a in range(i))",
+                "built-kept": f"all(implies(not any({_rk('a')} == k for a in range(i)), k in name.recs and name.recs[k] == built[k]) for k in built)",
+                "nothing-else": f"all(k in built or (k in src and 0 <= src[k] and src[k] < i and {_rk('src[k]')} == k) for k in name.recs)",
+            },
+        )
+    },
     models=_NAME_MODELS,
     globals=G,
     runtime=Runtime(_table_info_cases(), _table_build(), call=lambda fn, a: fn(a["self"])),
 )
+
+
+# ---- head: dates ------------------------------------------------------------------------------------------------
+_DATE_FMT = "%Y/%m/%d %H:%M:%S"  # the UFO3 openTypeHeadCreated format
+STRUCT_TIME = Opaque("struct_time")
+
+
+@specfn(BOOL, opaque=True, date=STR)
+def date_valid(date):
+    """the string parses as a UFO3 date 'YYYY/MM/DD HH:MM:SS' (library: time.strptime with that format accepts it)"""
+    import time
+
+    try:
+        time.strptime(date, _DATE_FMT)
+        return True
+    except ValueError:
+        return False
+
+
+@specfn(INT, opaque=True, date=STR)
+def date_seconds(date):
+    """seconds since 1970-01-01 00:00:00 UTC of a valid UFO3 date string read as UTC (library: calendar.timegm)"""
+    import calendar
+    import time
+
+    return calendar.timegm(time.strptime(date, _DATE_FMT))
+
+
+def _struct_of(ex):
+    return z3.Function("time_strptime_ufo3", z3.StringSort(), STRUCT_TIME.sort())
+
+
+def _strptime(ex, st, args, kwargs, node):
+    """time.strptime(s, '%Y/%m/%d %H:%M:%S'): ValueError iff not date_valid(s); otherwise a struct_time t with
+    calendar.timegm(t) == date_seconds(s)"""
+    from pyvc.api import SPECFNS
+
+    s, fmt = args
+    if not is_const(fmt) or fmt.py != _DATE_FMT or kwargs:
+        raise Unsupported("time.strptime with a format other than the UFO3 date format", node)
+    sz = lift(ex.deopt(s, st, node), STR)
+    ex.safety(st, ex.spec_decl(SPECFNS["date_valid"])(sz), "ValueError", node)
+    t = _struct_of(ex)(sz)
+    st.assume(_timegm_fn()(t) == ex.spec_decl(SPECFNS["date_seconds"])(sz))
+    return Val(STRUCT_TIME, t)
+
+
+def _timegm_fn():
+    return z3.Function("calendar_timegm", STRUCT_TIME.sort(), z3.IntSort())
+
+
+def _timegm(ex, st, args, kwargs, node):
+    """calendar.timegm(t): an integer determined by t"""
+    (t,) = args
+    if t.ty != STRUCT_TIME:
+        raise Unsupported("calendar.timegm of something that is not a struct_time", node)
+    return Val(INT, _timegm_fn()(lift(t)))
+
+
+def _gmtime(ex, st, args, kwargs, node):
+    """time.gmtime(): the current time — some struct_time"""
+    if args or kwargs:
+        raise Unsupported("time.gmtime with arguments", node)
+    return Val(STRUCT_TIME, z3.FreshConst(STRUCT_TIME.sort(), "now"))
+
+
+def _strftime(ex, st, args, kwargs, node):
+    """time.strftime('%Y/%m/%d %H:%M:%S', t): a string that time.strptime accepts with the same format"""
+    from pyvc.api import SPECFNS
+
+    fmt, t = args
+    if not is_const(fmt) or fmt.py != _DATE_FMT or t.ty != STRUCT_TIME:
+        raise Unsupported("time.strftime with a format other than the UFO3 date format", node)
+    s = z3.Function("time_strftime_ufo3", STRUCT_TIME.sort(), z3.StringSort())(lift(t))
+    st.assume(ex.spec_decl(SPECFNS["date_valid"])(s))
+    return Val(STR, s)
+
+
+_DATE_MODELS = {"time.strptime": _strptime, "calendar.timegm": _timegm, "time.gmtime": _gmtime, "time.strftime": _strftime}
+_DATES = ["2020/01/02 03:04:05", "1999/12/31 23:59:59", "1970/01/01 00:00:00", "2020/1/2 3:4:5", "2020/02/30 00:00:00", "2020-01-02 03:04:05", "", "x", "2020/01/02", "2020/01/02 03:04:05 ",
+          "1904/01/01 00:00:00", "2040/02/29 12:00:00", "2041/02/29 12:00:00", "2020/13/01 00:00:00", "2020/01/02 24:00:00", "2020/01/02  03:04:05", "２０２０/01/02 03:04:05", "0001/01/01 00:00:00"]
+
+contract(
+    f"{MOD}:dateStringToTimeValue",
+    props=P,
+    params={"date": STR},
+    returns=INT,
+    # a date that does not parse is NOT an error: the value is 0 (1970-01-01)
+    ensures={"value": "result == (date_seconds(date) if date_valid(date) else 0)"},
+    canaries={"always-zero": "result == 0", "never-zero": "result == date_seconds(date)"},
+    models=_DATE_MODELS,
+    runtime=Runtime(lambda rng, n: (_DATES + ["%04d/%02d/%02d %02d:%02d:%02d" % (rng.randint(1, 9999), rng.randint(0, 13), rng.randint(0, 32), rng.randint(0, 25), rng.randint(0, 61), rng.randint(0, 62)) for _ in range(n)])[:max(n, len(_DATES))], lambda d: {"date": d}),
+)
+
+contract(
+    f"{MOD}:dateStringForNow",
+    props=P,
+    params={},
+    returns=STR,
+    ensures={"parses": "date_valid(result)"},
+    canaries={"fixed": "result == '2020/01/02 03:04:05'"},
+    models=_DATE_MODELS,
+    runtime=Runtime(lambda rng, n: [0, 1, 2], lambda d: {}),
+)
+
+
+# ---- head -------------------------------------------------------------------------------------------------------
+@specfn(REAL, opaque=True, s=STR)
+def decimal_value(s):
+    """the number a decimal numeral denotes (library: float(s))"""
+    return float(s)
+
+
+@specfn(REAL, opaque=True, x=REAL)
+def round3(x):
+    """x rounded to three decimal places (library: round(x, 3))"""
+    return round(x, 3)
+
+
+def _float_c16(ex, st, args, kwargs, node):
+    """float(x): of a string, the number it denotes (uninterpreted decimal_value); of a number, the number"""
+    from pyvc import models
+    from pyvc.api import SPECFNS
+
+    (v,) = args
+    if not is_const(v) and v.ty == STR:
+        return Val(REAL, ex.spec_decl(SPECFNS["decimal_value"])(lift(v)))
+    return models.BUILTIN_MODELS["builtins.float"].model(ex, st, args, kwargs, node)
+
+
+def _round_c16(ex, st, args, kwargs, node):
+    """round(x, 3): uninterpreted round3(x)"""
+    from pyvc import models
+    from pyvc.api import SPECFNS
+
+    if len(args) == 2 and is_const(args[1]) and args[1].py == 3 and not is_const(args[0]):
+        return Val(REAL, ex.spec_decl(SPECFNS["round3"])(lift(args[0], REAL)))
+    return models.BUILTIN_MODELS["builtins.round"].model(ex, st, args, kwargs, node)
+
+
+cls(
+    "OutlineCompilerH",
+    fields={"ufo": Ref("Font"), "otf": Ref("TTFont"), "tables": Set(STR), "fontBoundingBox": lib.BBOX, "glyphDataFormat": INT, "has_glyphDataFormat": BOOL},
+    has={"glyphDataFormat": "has_glyphDataFormat"},
+    views={"has_glyphDataFormat": lambda o: hasattr(o, "glyphDataFormat")},
+    repo="ufo2ft.outlineCompiler:BaseOutlineCompiler",
+    notes="BaseOutlineCompiler instance as setupTable_head sees it (only the TrueType compiler has glyphDataFormat)",
+)
+
+_HEAD = "self.otf['head']"
+_VMAJ, _VMIN = gi("versionMajor"), gi("versionMinor")
+_CREATED = gi("openTypeHeadCreated")
+# versionMinor zero-filled to three digits (UFO3: a non-negative integer)
+_MINOR3 = f"ite({_VMIN} < 10, '00' + str({_VMIN}), ite({_VMIN} < 100, '0' + str({_VMIN}), str({_VMIN})))"
+_HEAD_FIELDS = {
+    # "major.minor" with the minor version as three digits, read as a decimal number and kept to three places
+    "fontRevision": f"implies({_VMIN} >= 0, {_HEAD}.fontRevision == round3(decimal_value(str({_VMAJ}) + '.' + {_MINOR3})))",
+    "unitsPerEm": f"{_HEAD}.unitsPerEm == otRound({gi('unitsPerEm')})",
+    # seconds since 1904-01-01 (= seconds since 1970 + 2082844800); an unparsable date counts as 1970-01-01
+    "created": f"{_HEAD}.created == (date_seconds({_CREATED}) if date_valid({_CREATED}) else 0) + 2082844800",
+    "bbox": f"{_HEAD}.xMin == self.fontBoundingBox[0] and {_HEAD}.yMin == self.fontBoundingBox[1] and {_HEAD}.xMax == self.fontBoundingBox[2] and {_HEAD}.yMax == self.fontBoundingBox[3]",
+    "macStyle": f"{_HEAD}.macStyle == ite({_SM} == 'bold', 1, ite({_SM} == 'bold italic', 3, ite({_SM} == 'italic', 2, 0)))",
+    "flags": f"{_HEAD}.flags == {bits_of(gi('openTypeHeadFlags'), 0, 16)}",
+    "lowestRecPPEM": f"{_HEAD}.lowestRecPPEM == otRound({gi('openTypeHeadLowestRecPPEM')})",
+    "constants": f"{_HEAD}.checkSumAdjustment == 0 and {_HEAD}.tableVersion == 1.0 and {_HEAD}.magicNumber == 0x5F0F3CF5 and {_HEAD}.fontDirectionHint == 2 and {_HEAD}.indexToLocFormat == 0"
+    f" and {_HEAD}.glyphDataFormat == (self.glyphDataFormat if self.has_glyphDataFormat else 0)",
+}
+# NOT registered yet: `"%d.%03d" % (major, minor)` (outlineCompiler.py:337) is outside the engine's %-formatting
+# (notes/C16.requests.md R6); head stays under observer O (bounded) until then
+_HEAD_PROPS = []
+
+contract(
+    "ufo2ft.outlineCompiler:BaseOutlineCompiler.setupTable_head",
+    name="c16",
+    props=_HEAD_PROPS,
+    params={"self": Ref("OutlineCompilerH")},
+    ensures={
+        **{k: f"implies('head' in self.tables, {v})" for k, v in _HEAD_FIELDS.items()},
+        "not-requested": "implies('head' not in self.tables, self.otf.get('head') == old(self.otf.get('head')))",
+    },
+    canaries={"regular": f"'head' in self.tables and {_HEAD}.macStyle == 0"},
+    locals={"macStyle": List(INT)},
+    models={**_DATE_MODELS, "builtins.float": _float_c16, "builtins.round": _round_c16},
+    calls={f"{MOD}:intListToNum": f"{MOD}:intListToNum#0+16"},
+    globals=G,
+    runtime=Runtime(_table_info_cases(), _table_build(), call=lambda fn, a: fn(a["self"])),
+)
+
+
+# ---- hhea / vhea: the info-derived fields (the glyph-derived ones are C04's variants of the same function) -----------------
+def _hv_contract(tag):
+    hv = tag == "hhea"
+    T_ = f"self.otf['{tag}']"
+    mtx = "hmtx" if hv else "vmtx"
+    M = f"self.otf['{mtx}'].metrics"
+    pre = "openTypeHhea" if hv else "openTypeVhea"
+    mpre = pre if hv else pre + "VertTypo"
+    fields = {
+        "ascent": mpre + "Ascender", "descent": mpre + "Descender", "lineGap": mpre + "LineGap",
+        "caretSlopeRise": pre + "CaretSlopeRise", "caretSlopeRun": pre + "CaretSlopeRun", "caretOffset": pre + "CaretOffset",
+    }
+    reserved = range(4) if hv else range(1, 5)
+    return contract(
+        "ufo2ft.outlineCompiler:BaseOutlineCompiler._setupTable_hhea_or_vhea",
+        name="c16-" + tag,
+        props=P,
+        params={"self": Ref("OutlineCompiler"), "tag": Const(tag)},
+        requires=[
+            # from the code (as in the C04 variant): the metrics table and the glyph boxes know every glyph of the order
+            f"self.otf.get('{mtx}') is not None",
+            f"all(g in {M} and g in self.glyphBoundingBoxes for g in self.glyphOrder)",
+        ],
+        ensures={
+            **{f: f"implies('{tag}' in self.tables, {T_}.{f} == otRound({gi(a)}))" for f, a in fields.items()},
+            "reserved": f"implies('{tag}' in self.tables, " + " and ".join(f"{T_}.reserved{i} == 0" for i in reserved) + ")",
+            "not-requested": f"implies('{tag}' not in self.tables, self.otf.get('{tag}') == old(self.otf.get('{tag}')))",
+        },
+        canaries={"no-line-gap": f"'{tag}' in self.tables and {T_}.lineGap == 0"},
+        locals={"advances": List(INT), "firstSideBearings": List(INT), "secondSideBearings": List(INT), "extents": List(INT), "numLongMetrics": INT},
+        loops={
+            "for glyphName in self.glyphOrder": Loop(index="i", invariants={"adv": "len(advances) >= 0"}),
+            "while advances[numLongMetrics - 2] == lastAdvance": Loop(invariants={"range": "2 <= numLongMetrics and numLongMetrics <= len(advances)"}),
+        },
+        globals=G,
+    )
+
+
+_hv_contract("hhea")
+_hv_contract("vhea")
+
+
+def _hv_cases(vertical):
+    base = _table_info_cases()
+
+    def gen(rng, n):
+        out = base(rng, n)
+        for d in out:
+            d.pop("no_tables", None)
+            d["vertical"] = vertical
+            if vertical:
+                # the stub .notdef's height comes from ascender - descender (vmtx refuses a negative height): keep them sane
+                d["info"].update({"ascender": 800, "descender": -200})
+                d["info"].update({"openTypeVheaVertTypoAscender": rng.choice([500, 499, 0]), "openTypeVheaVertTypoDescender": rng.choice([-500, -1]), "openTypeVheaVertTypoLineGap": rng.choice([0, 33])})
+                for a, vs in (("openTypeVheaCaretSlopeRise", [0, 1, 7]), ("openTypeVheaCaretSlopeRun", [1, 0, 3]), ("openTypeVheaCaretOffset", [0, -20, 15])):
+                    if rng.random() < 0.5:
+                        d["info"][a] = rng.choice(vs)
+        return out
+
+    return gen
+
+
+for _tag in ("hhea", "vhea"):
+    CONTRACTS["ufo2ft.outlineCompiler:BaseOutlineCompiler._setupTable_hhea_or_vhea#c16-" + _tag].runtime = Runtime(
+        _hv_cases(_tag == "vhea"),
+        (lambda t: lambda d: {"self": rtlib.outline_compiler(d, d["flavor"], upto=("hmtx",) if t == "hhea" else ("head", "hmtx", "hhea", "maxp", "OS2", "vmtx")), "tag": t})(_tag),
+        call=lambda fn, a: fn(a["self"], a["tag"]),
+    )
